@@ -7,8 +7,14 @@ See Also:
 
 from .serialization_error import *
 
+# NOTE: the generated package is star-imported before the public sub-packages, so that the attributes
+# `map`, `net` and `pub` end up bound to eolib.protocol.map/net/pub and not to their _generated twins.
+from ._generated import *
+
 from .map import *
 from .net import *
 from .pub import *
 
-from ._generated import *
+# The star-imports above also copy the sub-module attributes of those packages (net.packet, net.client,
+# net.server / pub.server). They are not part of this package, and `packet` would shadow `eolib.packet`.
+del packet, client, server
